@@ -110,3 +110,156 @@ class GenerateCentroids(Contract):
             return V.b_implies(nov, V.b_and(V.f_isnan(r(pre + [0])), V.f_isnan(r(pre + [1]))))
 
         return [("PL/no-visible-node-gives-NaN-centroid", Forall(list(lead), none_visible_gives_nan))]
+
+
+# --------------------------------------------------------------------- process_lf (bounded)
+class GLabInst:
+    """sleap_io instance ghost: `.numpy()` (n_nodes, 2) points, `.is_empty` iff every coordinate is NaN."""
+
+    __pyvc_native__ = True
+
+    def __init__(self, c, name, n_nodes, user=True):
+        self.points = c.tensor(name, [n_nodes, 2], FLOAT, nan_ok=True, kind="numpy")
+        rd = self.points.reader()
+        self.is_empty = V.b_and(*[V.f_isnan(rd([n, k])) for n in range(n_nodes) for k in range(2)])
+        self.user = user
+
+    def numpy(self):
+        return self.points
+
+    def __pyvc_to_real__(self):
+        from pyvc.concrete import to_real
+        import numpy as np
+
+        pts = np.asarray(to_real(self.points), dtype="float64")
+
+        class I:
+            is_empty = bool(np.isnan(pts).all())
+
+            def numpy(self_):
+                return pts
+
+        return I()
+
+
+class GLabFrame:
+    """sleap_io.LabeledFrame ghost: iterable over `.instances`; `.user_instances`; `.image` (H, W, C); `.frame_idx`."""
+
+    __pyvc_native__ = True
+
+    def __init__(self, instances, image, frame_idx):
+        self.instances = list(instances)
+        self.image = image
+        self.frame_idx = frame_idx
+
+    @property
+    def user_instances(self):
+        return [i for i in self._all if i.user] if hasattr(self, "_all") else [i for i in self.instances if i.user]
+
+    def __pyvc_iter__(self, interp):
+        return list(self.instances)
+
+    def __pyvc_len__(self, interp):
+        return len(self.instances)
+
+    def __iter__(self):
+        return iter(self.instances)
+
+    def __len__(self):
+        return len(self.instances)
+
+    def __pyvc_to_real__(self):
+        from pyvc.concrete import to_real
+        import numpy as np
+
+        f = GLabFrame([to_real(i) for i in self.instances], np.asarray(to_real(self.image)), int(self.frame_idx))
+        users = [r for r, g in zip(f.instances, self.instances) if g.user]
+        f.__class__ = type("RealLabFrame", (GLabFrame,), {"user_instances": property(lambda s: users)})
+        return f
+
+
+@contract
+class ProcessLf(Contract):
+    """BOUNDED: process_lf on a labelled frame with 1..3 instances (each user-made or predicted,
+    each possibly empty), 1..2 nodes, max_instances in {1, K, K+1}."""
+
+    target = "sleap_nn.data.providers.process_lf"
+    props = ("C11",)
+    level = "property"
+    functional = False
+    pure = False
+    no_crosscheck = True
+    no_replay = True
+    dims = ()
+    # "K:pattern:N:M:u" -- pattern: one letter per instance, u = user-made, p = predicted
+    cases = ("1:u:2:1:1", "2:uu:1:2:1", "2:up:2:2:1", "2:up:2:3:1", "2:pp:1:2:1", "3:upu:1:3:1", "2:up:1:2:0", "3:ppu:2:4:0")
+    bounded = ("process_lf: frames with 1..3 instances (user/predicted patterns as listed), 1..2 nodes, max_instances in {K, K+1}; coordinates (incl. NaN), image and indices symbolic",)
+    not_decided = ("the Dataset classes of custom_datasets.py / streaming_datasets.py (do not import here; need sleap_io / litdata object models): __getitem__ determinism over call sequences, cache immutability, __len__",)
+
+    def inputs(self, c, case):
+        K, pat, N, M, u = case.split(":")
+        K, N, M = int(K), int(N), int(M)
+        insts = [GLabInst(c, "inst%d" % k, N, user=(pat[k] == "u")) for k in range(K)]
+        H, W, C = c.dim("H", lo=1), c.dim("W", lo=1), c.dim("C", lo=1)
+        img = c.tensor("image", [H, W, C], INT, kind="numpy", lo=0, hi=255)
+        return dict(insts=insts, image=img, frame_idx=c.int("frame_idx", lo=0), video_idx=c.int("video_idx", lo=0), max_instances=M, user_only=(u == "1"))
+
+    def _used(self, insts, user_only):
+        users = [i for i in insts if i.user]
+        return users if (user_only and users) else list(insts)
+
+    def requires(self, c, insts, image, frame_idx, video_idx, max_instances, user_only):
+        used = self._used(insts, user_only)
+        # domain: the frame has a non-empty instance (the datasets only index such frames) and
+        # max_instances (the maximum over the labels) is not below this frame's count
+        return [("some-instance-is-not-empty", V.b_or(*[V.b_not(i.is_empty) for i in used]))]
+
+    def run(self, interp, a):
+        self._lf = GLabFrame(a["insts"], a["image"], a["frame_idx"])
+        self._lf._all = list(a["insts"])
+        f = interp.resolve_dotted("sleap_nn.data.providers.process_lf")
+        return interp.call(f, [self._lf, a["video_idx"], a["max_instances"]], dict(user_instances_only=a["user_only"]))
+
+    def ensures(self, c, result, insts, image, frame_idx, video_idx, max_instances, user_only):
+        if not isinstance(result, dict):
+            return [("PL/returns-a-dict", False)]
+        used = self._used(insts, user_only)
+        N = insts[0].points.shape[0]
+        inst, img = result.get("instances"), result.get("image")
+        if not (isinstance(inst, STensor) and inst.rank == 4 and isinstance(img, STensor) and img.rank == 4):
+            return [("PL/instances-and-image-are-rank-4", False)]
+        # every emptiness pattern of the instances considered (the real code may or may not have
+        # branched on it): pattern => the sample holds exactly the non-empty ones, in order
+        import itertools as _it
+
+        rows = inst.shape[1]
+        ir = inst.reader()
+        alts = []
+        for flags in _it.product([False, True], repeat=len(used)):
+            hyp = V.b_and(*[(i.is_empty if fl else V.b_not(i.is_empty)) for i, fl in zip(used, flags)])
+            if hyp is False:
+                continue
+            kept = [i for i, fl in zip(used, flags) if not fl]
+            n = len(kept)
+            if n == 0:
+                continue   # excluded by the precondition
+            want_rows = n if max_instances == 1 else n + abs(max_instances - n)
+            ok = (result.get("num_instances") == n) and isinstance(rows, int) and rows == want_rows
+            vals = []
+            if ok:
+                for k, i in enumerate(kept):
+                    pr = i.points.reader()
+                    vals += [V.f_same(ir([0, k, nn, xy]), pr([nn, xy])) for nn in range(N) for xy in range(2)]
+                for k in range(n, rows):
+                    vals += [V.f_isnan(ir([0, k, nn, xy])) for nn in range(N) for xy in range(2)]
+            alts.append(V.b_implies(hyp, V.b_and(ok, *vals)))
+        cl = [("PL/sample-holds-exactly-the-non-empty-labelled-instances-in-order-(missing-keypoints-stay-NaN)-then-NaN-padding-and-their-count", V.b_and(*alts))]
+        H, W, C = image.shape
+        sr, dr = image.reader(), img.reader()
+        cl.append(("PL/image-is-the-frame-image-channel-first", V.b_and(V.i_eq(img.shape[0], 1), V.i_eq(img.shape[1], C), V.i_eq(img.shape[2], H), V.i_eq(img.shape[3], W))))
+        cl.append(("PL/image-values", Forall([C, H, W], lambda ch, i, j: V.i_eq(dr([0, ch, i, j]), sr([i, j, ch])))))
+        fi, vi, osz = result.get("frame_idx"), result.get("video_idx"), result.get("orig_size")
+        sc = lambda t: t.at([0] * t.rank) if isinstance(t, STensor) else t
+        cl.append(("PL/carries-its-frame-index-video-index-and-original-size", V.b_and(V.i_eq(sc(fi), frame_idx), V.i_eq(sc(vi), video_idx),
+                                                                                   V.f_eq(osz.reader()([0]), T.cast_scalar(H, FLOAT)), V.f_eq(osz.reader()([1]), T.cast_scalar(W, FLOAT)))))
+        return cl
